@@ -102,7 +102,7 @@ class VPipeline(VCluster):
         out, p, seen = [], self.cur(), set()
         while p is not None and p.pid not in seen:
             seen.add(p.pid)
-            if p.kind == "node" and p.hpc_id is not None:
+            if p.kind in ("node", "worker") and p.hpc_id is not None:
                 out.append(p.hpc_id)
             p = self.procs.get(p.parent) if p.parent is not None else None
         return out
